@@ -26,6 +26,7 @@ TEXTS = {
     '[5]': ('ind_num', None, 5), '[lbl]': ('ind_num', None, 9), '[[5]]': ('def_num', None, 5),
     '[a]': ('ind_reg', 'a', 0), '[a+1]': ('ind_reg', 'a', 1), '[b]': ('ind_reg', 'b', 0),
     'a+1': ('idx_reg', 'a', 1), '{5}': ('curly', None, 5),
+    'foo+1': ('num', None, 8), 'foo_x': ('num', None, 3),      # expressions / identifiers that merely begin with an enumeration key
 }
 TEXTS_Q2 = ['a', 'b', 'sp', '5', 'foo', '[5]', '[a]', 'a+1']
 
@@ -168,7 +169,7 @@ def meta(tier):
     q = tier == 'quick'
     return {
         'rule': 'one-slot: every ordered pair of variants whose single slot is any subset of size <=2 (thorough 3) of the 11 alternative '
-                'kinds (at most one numeric-like kind per set) x all 16 operand texts x mnemonic case; two-slot: variants over a '
+                'kinds (at most one numeric-like kind per set) x all 18 operand texts x mnemonic case; two-slot: variants over a '
                 'reduced subset list, with and without an explicitly listed combination and a disallowed pair, x pairs of 8 texts; '
                 'three variants over a reduced list; expected = opcode of the first accepting variant + code of the chosen '
                 'alternative (+ argument), or rejection; non-trivial = statement that more than one variant or more than one '
@@ -204,7 +205,7 @@ def run_group(acc, group, texts_list, upper=False):
         opsets.update(sets)
     isa = {'general': {'address_size': 16, 'endian': 'big', 'registers': REGS, 'min_version': '0.3.0'},
            'operand_sets': opsets, 'instructions': instructions}
-    header = [f'{k} = {v}' for k, v in LABELS.items()]
+    header = [f'{k} = {v}' for k, v in LABELS.items()] + ['foo_x = 3']
     ok_lines, ok_bytes, pending = [], bytearray(), []
     addr = 0
     singles = []
